@@ -1,6 +1,6 @@
 HOOK_COMMITS = ["bc7826eeb31079b932557c6566a10da9b9acc9ce"]
 _PENDING = "check not built yet in this round (planned, see DESIGN.md section 9); not a statement that the technique cannot apply"
-NOT_APPLICABLE = {p: _PENDING for p in ["C05","C08","C09","C10","C11","C12","C16"]}
+NOT_APPLICABLE = {p: _PENDING for p in ["C05","C09","C10","C11","C12","C16"]}
 TEXT = {
  "C17": {
   "text": "Lean mirror of integer.h / dyadic_rational.h / rational.h; theorems for every modulus m>=2 and every operand state that each "
@@ -98,6 +98,20 @@ TEXT = {
   "design_ref": "5.19",
   "note": "clause (c) is runtime monitoring on generated inputs, not proof (no executable Lean model can exhibit out-of-bounds access); variable_db/variable_order counters are opaque and observed only via sanitizers",
   "technique": "Lean 4 invariant proof (refcount protocol) + correspondence with aliased/pre-used outputs + sanitizer monitoring",
+ },
+ "C08": {
+  "text": "Every lp_value_* answer is judged through the denotation of the value as an extended real: integer / dyadic / rational / "
+          "algebraic representations are mapped into the algebraic-number model whose exact comparison is proved correct, infinities to "
+          "the ends of the line. C08_cmp proves that the judged comparison is the order of the denoted extended reals whatever the "
+          "representations (hence total, antisymmetric, transitive, representation independent). On every run the harness compares "
+          "lp_value_cmp over all representation pairs (incl. the same number in 2-4 representations), cmp_rational, sgn, "
+          "add/sub/mul/div/neg/inv/pow (exact value by the C07 eliminant validator; infinite operands by the documented table), "
+          "floor/ceiling/is_integer (exact), is_rational + get_rational/num/den (exact value, reduced form, positive denominator), "
+          "get_value_between under every strictness pattern (bounds by exact comparison), hash_approx of equal numbers in different "
+          "representations (must agree).",
+  "design_ref": "5.8",
+  "note": "found and fixed: (+inf)^n returned -inf. The mirror of the type lattice planned in DESIGN was replaced by per-output validation against the denotation",
+  "technique": "Lean 4 proved exact comparison of denotations (validator) + per-output validation of the C results",
  },
  "C07": {
   "text": "Every result of lp_algebraic_number_add/sub/neg/mul/inv/div/pow/positive_root and every observation (cmp with numbers, "
